@@ -425,11 +425,15 @@ class C17(Proto):
             "script: 2 telegrams back to back while the application waits in its receive; bursts of 2,3,4,8,16,64 while "
             "nobody receives, then the application reads them all. distinct = scripts.")
     technique = "Lean 4 proof (FIFO law of the parked-delivery queue, composed with the acceptance theorem of C04) + trace correspondence under testing/synctest + real-time ordering runs"
-    level_text = ("Theorem: what is queued comes out in queue order, each telegram once; a burst followed by reads yields "
-                  "exactly the accepted telegrams in acceptance order. The model's queue is what the code has since fix "
-                  "dc79db5 (one queue, one draining goroutine); before it every parked telegram had its own goroutine and "
-                  "real-time bursts arrived permuted (30 of 30 rounds) - found by the real-time stream, repaired, recorded "
-                  "as fixed. Tie: virtual-time traces equal to the model's; real-time rounds in order.")
+    level_text = ("Theorems: (tunnel model) what is queued comes out in queue order, each telegram once; a burst followed by "
+                  "reads yields exactly the accepted telegrams in acceptance order.  (Queue of knx/inbound.go, model Knx.IQ: the "
+                  "serve loop's push under the mutex, the drainer's take, the blocking hand-over as separate atomic steps) for "
+                  "EVERY interleaving of the three parties the invariant delivered ++ held ++ pending = pushed holds, so what the "
+                  "application has received is a prefix of what was pushed - nothing twice, nothing skipped, nothing out of "
+                  "order - and when the drainer has stopped everything has been received.  Before fix dc79db5 every parked "
+                  "telegram had its own goroutine and real-time bursts arrived permuted (30 of 30 rounds) - found by the "
+                  "real-time stream, repaired, recorded as fixed.  Tie: virtual-time traces equal to the model's; real-time "
+                  "rounds (waiting / stalled / joining reader) in order.")
     partial = ("that a single goroutine sending on a channel delivers in program order is Go's channel semantics (trusted); "
                "the real-time rounds sample schedules, they do not enumerate them")
 
@@ -466,7 +470,7 @@ class C14(Proto):
                   "label sequences and over the lock hand-off chain); failed transmissions are not retained; an idle client told "
                   "that k messages were lost retransmits exactly the last min(k, retained) in original order and nothing else "
                   "(pause 0: whole chain; with a pause: one message per pause, step law); every routing indication is parked once "
-                  "and read in order; after Close Inbound is closed.")
+                  "and read in order; after Close Inbound is closed. With a pause (resend_paced): as the timers fire, exactly the lost messages leave the client, in their original order, one post-send pause apart, and the lock ends up free.")
 
 
 class C16(Prop):
